@@ -187,6 +187,17 @@ def c12():
                 if not os.path.exists(os.path.join(d, "config.yaml")): R.fail("c12.config_present", "config.yaml missing although solver and problem are reconstructible", inp)
     d = os.path.join(base, "c12_off"); s = VI(Forest(S=5), verbose=0, gamma=0.9, checkpoint_dir=d, checkpoint_frequency=0); s.solve(3); R.case(("f=0",), dict(frequency=0))
     if os.path.exists(d): R.fail("c12.disabled_writes_nothing", "checkpoint_frequency=0 created the directory", dict(frequency=0))
+    # a hand-written problem WITHOUT any configuration (attribute absent) solved with a solver configuration whose embedded problem entry describes ANOTHER, built-in problem:
+    # not reconstructible from configuration -> no config.yaml, restore() refuses the directory
+    from mdpax.solvers.value_iteration import ValueIterationConfig
+    from mdpax.problems.forest import ForestConfig
+    class PlainForest(Forest):
+        def __init__(self, **kw):
+            super().__init__(**kw); del self.config
+    d = os.path.join(base, "c12_plain"); R.case(("configless_problem_with_stale_embedded_config",), dict(problem="Forest subclass without a config attribute", solver_config="ValueIterationConfig(problem=ForestConfig(S=4), checkpoint_frequency=2)"))
+    s = VI(problem=PlainForest(S=6), config=ValueIterationConfig(problem=ForestConfig(S=4), checkpoint_dir=d, checkpoint_frequency=2, max_checkpoints=2, verbose=0)); s.solve(4); wait(s)
+    if os.path.exists(os.path.join(d, "config.yaml")):
+        R.fail("c12.config_absent_when_not_reconstructible", "config.yaml written although the problem instance carries no configuration (the file describes another problem)", dict(problem="Forest subclass without a config attribute, S=6", solver_config="embedded problem entry: ForestConfig(S=4)"), "config.yaml present", "absent")
     # restore of an OLDER step into the same directory, then continue
     d = os.path.join(base, "c12_old"); s = VI(Forest(S=11, p=0.2), verbose=0, gamma=0.95, epsilon=1e-12, checkpoint_dir=d, checkpoint_frequency=5, max_checkpoints=5); s.solve(17); wait(s); R.case(("restore_older_same_dir",), None)
     before = steps(d); r = VI.restore(d, step=10); r.solve(3); wait(r)
